@@ -10,6 +10,7 @@ import (
 	"container/heap"
 	"fmt"
 	"net"
+	"os"
 	"sort"
 	"strings"
 	"sync"
@@ -47,6 +48,14 @@ func (c *chooser) choose(kind string, n int, desc string) int {
 	}
 	c.pts = append(c.pts, choicePt{kind, n, pick, desc})
 	return pick
+}
+
+// descTime: instants in choice descriptions are rounded (readable replays) unless MC_EXACT is set.
+func descTime(d time.Duration) time.Duration {
+	if os.Getenv("MC_EXACT") != "" {
+		return d
+	}
+	return d.Round(time.Millisecond)
 }
 
 // ---------------------------------------------------------------- event queue
@@ -178,6 +187,16 @@ func (c *cluster) spawn(i, gen int) *cnode {
 		if c.cfg.Opts != nil {
 			c.cfg.Opts(i, cf)
 		}
+		// The Go runtime deliberately randomises the firing order of bubble timers that are due at
+		// exactly the same virtual instant. With round configuration values such ties are structural
+		// (a 3 s suspicion started by a probe chain of exactly 1 s steps expires in the very nanosecond
+		// in which a 500 ms nack timer started by the same chain does): both orders are legal, but
+		// the choice is not ours to replay. Generic per-node values (a few hundred nanoseconds off
+		// the round ones, as any real clock would make them) remove the ties.
+		k := time.Duration(i + 1)
+		cf.ProbeInterval += k * 1009 * time.Nanosecond
+		cf.ProbeTimeout += k * 107 * time.Nanosecond
+		cf.GossipInterval += k * 53 * time.Nanosecond
 	})
 	must(err)
 	c.b.track(n)
@@ -298,7 +317,7 @@ func (c *cluster) decide(from *cnode, p sentPkt) {
 			opts = append(opts, "dup")
 		}
 		if len(opts) > 1 {
-			k := c.ch.choose("packet", len(opts), fmt.Sprintf("%s->%s %v @%v", from.Name, to.Name, rec.Leaves, rec.At.Round(time.Millisecond)))
+			k := c.ch.choose("packet", len(opts), fmt.Sprintf("%s->%s %v @%v", from.Name, to.Name, rec.Leaves, descTime(rec.At)))
 			switch {
 			case k == 0:
 			case k <= len(c.cfg.LatAlt):
@@ -342,7 +361,7 @@ func (c *cluster) onDial(from *cnode, a ml.Address, d time.Duration) (net.Conn, 
 		return refuse()
 	}
 	if c.cfg.StreamAlt && c.inWindow() {
-		if c.ch.choose("dial", 2, fmt.Sprintf("%s->%s @%v", from.Name, to.Name, c.since().Round(time.Millisecond))) == 1 {
+		if c.ch.choose("dial", 2, fmt.Sprintf("%s->%s @%v", from.Name, to.Name, descTime(c.since()))) == 1 {
 			return refuse()
 		}
 	}
